@@ -1915,3 +1915,12 @@ MA('C02', 'complex inner product of large arrays through BLAS dotc with the argu
    'return np.vdot(x2.data.ravel(order), x1.data.ravel(order))',
    "if x1.size > THRESHOLD_MEDIUM and _blas_is_applicable(x1.data, x2.data):\n    import scipy.linalg\n    return scipy.linalg.blas.get_blas_funcs('dotc', dtype=x1.dtype)(x1.data.ravel(order), x2.data.ravel(order))\nreturn np.vdot(x2.data.ravel(order), x1.data.ravel(order))",
    'blas,big')
+MA('C04', 'right vector multiple uses out for the intermediate product',
+   'odl/operator/operator.py', 'OperatorRightVectorMult._call',
+   'tmp = self.domain.element()',
+   'tmp = out if out in self.domain else self.domain.element()', 'R3')
+MA('C04', 'operator sum accumulates in out unless out is x',
+   'odl/operator/operator.py', 'OperatorSum._call',
+   'self.left(x, out=tmp)',
+   'if out is not x:\n    self.left(x, out=out)\n    out += self.right(x)\n    return\nself.left(x, out=tmp)',
+   'R3s')
